@@ -284,7 +284,8 @@ class MCNP_Object(ABC):
         if len(initial_indent) + len(line) <= line_length:
             return [initial_indent + line]
         data, dollar, comment = line.partition("$")
-        ret = wrap(data, initial_indent, subsequent_indent)
+        # a piece holding only blanks would be a blank line, which ends the block
+        ret = [l for l in wrap(data, initial_indent, subsequent_indent) if l.strip()]
         if dollar:
             comment = dollar + comment
             if ret and len(ret[-1]) + len(comment) <= line_length:
